@@ -123,7 +123,7 @@ fn alphabet() -> Vec<Sym> {
         s(A, ReadGetMut, Tok::Own),
         s(A, ReadSigned, Tok::Own),
     ];
-    for dt in [-50_000_000i64, -45_000_001, -45_000_000, -44_000_000, 44_000_000, 45_000_000, 45_000_001, 50_000_000] {
+    for dt in [-50_000_000i64, -45_000_001, -45_000_000, -44_000_000, -5_000_000, 1, 5_000_000, 10_000_000, 44_000_000, 45_000_000, 45_000_001, 50_000_000] {
         v.push(s(A, Signed { dt_us: dt, bad_sig: false }, Tok::Own));
     }
     v
